@@ -526,6 +526,7 @@ func runBind(in []int64) ([]int64, []int64) {
 	}
 	lastLaw = append(replay.finalSpecs().enc(), held...)
 	lastSig = ""
+	lastLawExcused = nil
 	// (An accepted call on an entry without Node object was known finding
 	// C02-bind-to-placeholder-node-unchecked until /repo fix 8dab8c3; no signature is attached any
 	// more: it is a plain law 112 / correspondence failure again.)
@@ -536,9 +537,15 @@ func runBind(in []int64) ([]int64, []int64) {
 // law 112 input: the case with every node / pod as last delivered + what the real nodes hold
 var lastLaw []int64
 var lastSig string
+var lastLawExcused []int64
 
 func bindLaws(in []int64, law func(lsel int, lin []int64, sig string)) {
 	law(112, lastLaw, lastSig)
+	if lastSig != "" && lastLawExcused != nil {
+		law(116, lastLawExcused, "")
+	}
+	// the initial cache of the case satisfies cinv, the hypothesis of bind_events_safe
+	law(115, in, "")
 }
 
 // ---------- generator ----------
